@@ -102,27 +102,107 @@ Theorem C02_encodings_equivalent :
 Proof. exact encodings_equivalent. Qed.
 
 (* ---- the sheet loop: the cells of every legal layout, in stream order ---- *)
+(* layouts: any record kinds in any order, FORMULA followed by any run of ignored records
+   (SHRFMLA / ARRAY / TABLE / …) before its STRING, STRING continued in CONTINUE records,
+   ROW / DBCELL / INDEX / BLANK / MULBLANK / … anywhere, DIMENSIONS in both widths *)
 Theorem C02_sheet_cells :
   forall (fdiv100 : N -> N) (decode16 : list N -> list N) (en : env) (c : layout),
-  wf_layout c = true ->
+  wf_layout c = true -> known_C02 c = None ->
   sheet_cells fdiv100 decode16 en (encode_sheet c) =
     Ok (logical fdiv100 decode16 en c, layout_fmls c).
 Proof. exact sheet_cells_encode. Qed.
 
+(* inside and outside the known class: what the loop takes from each item *)
+Theorem C02_sheet_cells_read :
+  forall (fdiv100 : N -> N) (decode16 : list N -> list N) (en : env) (c : layout),
+  wf_layout c = true ->
+  sheet_cells fdiv100 decode16 en (encode_sheet c) =
+    Ok (read_logical fdiv100 decode16 en c, layout_fmls c).
+Proof. exact sheet_cells_read. Qed.
+
+(* a record of any type but FORMULA between a FORMULA and its STRING leaves the pending
+   position where it was *)
+Theorem C02_between_keeps_position :
+  forall (fdiv100 : N -> N) (decode16 : list N -> list N) (en : env) (r : frec)
+         (cells : list cellv) (fpos : pos) (fmls : list pos) cells' fpos' fmls',
+  f_typ r <> 6 -> step fdiv100 decode16 en r cells fpos fmls = Ok (Next cells' fpos' fmls') ->
+  fpos' = fpos.
+Proof. exact step_keeps_fpos. Qed.
+
 (* ---- the main theorem: every legal layout of a logical sheet reads back as its range ---- *)
 Theorem C02_xls_sheet_main :
   forall (fdiv100 : N -> N) (decode16 : list N -> list N) (en : env) (L : list cellv) (c : layout),
-  legal fdiv100 decode16 en c L ->
+  legal fdiv100 decode16 en c L -> known_C02 c = None ->
   sheet_model fdiv100 decode16 en (encode_sheet c) = Ok (range_of L).
 Proof. exact (fun fd dc en => @xls_sheet_main fd dc en from_sparse_spec). Qed.
 
+(* every well-formed layout in row order, the known class included: the range of what the
+   reader takes (a continued string result: its first fragment) *)
+Theorem C02_xls_sheet_read :
+  forall (fdiv100 : N -> N) (decode16 : list N -> list N) (en : env) (c : layout),
+  wf_layout c = true -> sorted_by_rowb (read_logical fdiv100 decode16 en c) = true ->
+  sheet_model fdiv100 decode16 en (encode_sheet c) =
+    Ok (range_of (read_logical fdiv100 decode16 en c)).
+Proof. exact (fun fd dc en => @xls_sheet_read fd dc en from_sparse_spec). Qed.
+
+(* known class 1 (StringContinue): a legal layout the reader gets wrong *)
+Theorem C02_refuted_string_continue : forall fdiv100 : N -> N,
+  exists c L, legal fdiv100 id_decode example_env c L /\ known_C02 c = Some 1 /\
+    sheet_model fdiv100 id_decode example_env (encode_sheet c) <> Ok (range_of L) /\
+    sheet_model fdiv100 id_decode example_env (encode_sheet c)
+      = Ok (range_of (read_logical fdiv100 id_decode example_env c)).
+Proof. exact refuted_string_continue. Qed.
+
 Theorem C02_xls_sheet_values :
   forall (fdiv100 : N -> N) (decode16 : list N -> list N) (en : env) (L : list cellv) (c : layout),
-  legal fdiv100 decode16 en c L ->
+  legal fdiv100 decode16 en c L -> known_C02 c = None ->
   exists r, sheet_model fdiv100 decode16 en (encode_sheet c) = Ok r /\ Wf r /\
     rect r = tight_bbox (map fst L) /\
     forall q, get_value r q = if in_rect r q then Some (last_write DEmpty L q) else None.
 Proof. exact (fun fd dc en => @xls_sheet_main_values fd dc en from_sparse_spec). Qed.
+
+(* ---- totality (for C06): no byte string panics the sheet reader or exhausts the stated fuel ---- *)
+Theorem C02_no_panic_sheet :
+  forall (fdiv100 : N -> N) (decode16 : list N -> list N) (en : env) (stream : list N),
+  sheet_model fdiv100 decode16 en stream <> Panic /\
+  sheet_model fdiv100 decode16 en stream <> OutOfFuel.
+Proof. exact sheet_model_total. Qed.
+
+Theorem C02_no_panic_sheet_cells :
+  forall (fdiv100 : N -> N) (decode16 : list N -> list N) (en : env) (stream : list N),
+  sheet_cells fdiv100 decode16 en stream <> Panic /\
+  sheet_cells fdiv100 decode16 en stream <> OutOfFuel.
+Proof. exact sheet_cells_total. Qed.
+
+Theorem C02_no_panic_sheet_at :
+  forall (fdiv100 : N -> N) (decode16 : list N -> list N) (en : env) (workbook : list N) (p : N),
+  sheet_at fdiv100 decode16 en workbook p <> Panic /\
+  sheet_at fdiv100 decode16 en workbook p <> OutOfFuel.
+Proof. exact sheet_at_total. Qed.
+
+Theorem C02_no_panic_records : forall s : list N,
+  all_records (S (length s)) s <> Panic /\ all_records (S (length s)) s <> OutOfFuel.
+Proof. exact all_records_total. Qed.
+
+Theorem C02_no_panic_cell_record :
+  forall (fdiv100 : N -> N) (decode16 : list N -> list N) (en : env) (typ : N) (d : list N),
+  parse_cell_record fdiv100 decode16 en typ d <> Panic /\
+  parse_cell_record fdiv100 decode16 en typ d <> OutOfFuel.
+Proof. exact parse_cell_record_total. Qed.
+
+Theorem C02_no_panic_formula_value : forall r : list N, length r = 8%nat ->
+  parse_formula_value r <> Panic /\ parse_formula_value r <> OutOfFuel.
+Proof. exact parse_formula_value_total. Qed.
+
+Theorem C02_no_panic_dimensions : forall r : list N,
+  parse_dimensions r <> Panic /\ parse_dimensions r <> OutOfFuel.
+Proof. exact parse_dimensions_total. Qed.
+
+(* the one remaining panic of the slice's functions: rk_num on a slice that is not 6 bytes
+   (its callers always pass exactly 6; C02_no_panic_cell_record covers them) *)
+Theorem C02_rk_num_panics_iff : forall (fdiv100 : N -> N) (rk : list N) (formats : list cellfmt) (is1904 : bool),
+  rk_num fdiv100 rk formats is1904 <> Panic <-> length rk = 6%nat.
+Proof. exact rk_num_total. Qed.
 
 (* ---- the float side (Flocq binary64; only this theorem depends on the classical axioms of the
    standard library's reals): when 100 divides the RK integer, the double quotient the float
@@ -136,8 +216,39 @@ Proof. exact rk_int_float_x100_agree. Qed.
 Example C02_main_nonvacuous : forall fdiv100 decode16,
   legal fdiv100 decode16 example_env example_layout
         (logical fdiv100 decode16 example_env example_layout) /\
-  length (logical fdiv100 decode16 example_env example_layout) = 13%nat.
+  known_C02 example_layout = None /\
+  length (logical fdiv100 decode16 example_env example_layout) = 14%nat.
 Proof. exact example_legal. Qed.
+
+(* FORMULA, SHRFMLA, STRING (first cell of a filled-down shared text formula), then FORMULA,
+   STRING (second cell); FORMULA, ARRAY, STRING (array anchor returning text): legal, outside
+   the known class, and read back with every string at its cell *)
+Definition shared_layout : layout :=
+  mkLayout [IDims true 2 5 1 3;
+            IFormula 2 1 0 (CStr (mkStr [104; 105] false) []) 8 0 [5; 0; 1; 2; 0; 1; 0]
+                     [(1212, [2; 0; 3; 0; 1; 1; 0; 2; 3; 0; 30; 1; 0])];
+            IFormula 3 1 0 (CStr (mkStr [106] false) []) 8 0 [5; 0; 1; 2; 0; 1; 0] [];
+            IFormula 4 2 0 (CStr (mkStr [8364] true) []) 0 0 [5; 0; 1; 4; 0; 2; 0] [ex_array]] [].
+Example C02_shrfmla_nonvacuous : forall fdiv100,
+  legal fdiv100 id_decode example_env shared_layout
+        (logical fdiv100 id_decode example_env shared_layout) /\
+  known_C02 shared_layout = None /\
+  sheet_model fdiv100 id_decode example_env (encode_sheet shared_layout) =
+    Ok (mkRange (2, 1) (4, 2)
+          [DString [104; 0; 105; 0]; DEmpty; DString [106; 0]; DEmpty; DEmpty; DString [172; 32]]).
+Proof. intros. repeat split; vm_compute; reflexivity. Qed.
+
+Example C02_read_nonvacuous : forall fdiv100,
+  wf_layout cont_layout = true /\
+  sorted_by_rowb (read_logical fdiv100 id_decode example_env cont_layout) = true /\
+  read_logical fdiv100 id_decode example_env cont_layout = [((1, 1), DString [104; 0])] /\
+  logical fdiv100 id_decode example_env cont_layout = [((1, 1), DString [104; 0; 105; 0; 172; 32])].
+Proof. intros. repeat split; reflexivity. Qed.
+
+Example C02_between_nonvacuous : forall fdiv100,
+  step fdiv100 id_decode example_env (mkRec 1212 [2; 0; 3; 0; 1; 1; 0; 2; 3; 0; 30; 1; 0] None)
+       [] (2, 1) [(2, 1)] = Ok (Next [] (2, 1) [(2, 1)]).
+Proof. intros. reflexivity. Qed.
 
 Example C02_equiv_nonvacuous : forall fdiv100,
   form_of fdiv100 4619567317775286272 (RkI 700 true) = true /\
@@ -156,8 +267,17 @@ Proof. repeat split; reflexivity. Qed.
 
 Check C02_xls_sheet_main :
   forall (fdiv100 : N -> N) (decode16 : list N -> list N) (en : env) (L : list cellv) (c : layout),
-  legal fdiv100 decode16 en c L ->
+  legal fdiv100 decode16 en c L -> known_C02 c = None ->
   sheet_model fdiv100 decode16 en (encode_sheet c) = Ok (range_of L).
+Check C02_xls_sheet_read :
+  forall (fdiv100 : N -> N) (decode16 : list N -> list N) (en : env) (c : layout),
+  wf_layout c = true -> sorted_by_rowb (read_logical fdiv100 decode16 en c) = true ->
+  sheet_model fdiv100 decode16 en (encode_sheet c) =
+    Ok (range_of (read_logical fdiv100 decode16 en c)).
+Check C02_no_panic_sheet :
+  forall (fdiv100 : N -> N) (decode16 : list N -> list N) (en : env) (stream : list N),
+  sheet_model fdiv100 decode16 en stream <> Panic /\
+  sheet_model fdiv100 decode16 en stream <> OutOfFuel.
 Check C02_rk_int_all : forall (fdiv100 : N -> N) (w : N),
   w < 4294967296 -> N.testbit w 1 = true ->
   rk_decode fdiv100 w =
@@ -180,6 +300,18 @@ Print Assumptions C02_err_codes_one_to_one.
 Print Assumptions C02_formula_cached_value.
 Print Assumptions C02_encodings_equivalent.
 Print Assumptions C02_sheet_cells.
+Print Assumptions C02_sheet_cells_read.
+Print Assumptions C02_between_keeps_position.
 Print Assumptions C02_xls_sheet_main.
+Print Assumptions C02_xls_sheet_read.
+Print Assumptions C02_refuted_string_continue.
 Print Assumptions C02_xls_sheet_values.
+Print Assumptions C02_no_panic_sheet.
+Print Assumptions C02_no_panic_sheet_cells.
+Print Assumptions C02_no_panic_sheet_at.
+Print Assumptions C02_no_panic_records.
+Print Assumptions C02_no_panic_cell_record.
+Print Assumptions C02_no_panic_formula_value.
+Print Assumptions C02_no_panic_dimensions.
+Print Assumptions C02_rk_num_panics_iff.
 Print Assumptions C02_rk_int_float_x100_agree.
